@@ -326,8 +326,9 @@ def r3_tiers(ctx):
     kw = {}
     for sc in elect.state_ctor_calls(prog, f):
         kw = {k: astx.u(astx.unique_def(f.node, v.id) if isinstance(v, ast.Name) else v) for k, v in elect.state_kwargs(prog, sc).items()}
-    rc = [astx.u(c.args[0]) for c in astx.calls_in(f.node, "remove_cand")]
-    good = tv is not None and kw.get("elected") == f"(frozenset({tv}[0]),)" and kw.get("remaining") == astx.A(f"tuple([frozenset(s) for s in {tv}[1:]])") and rc == [f"list({tv}[0])"]
+    # (which candidates are struck does not depend on the container they are handed over in)
+    rc = [astx.u(astx.strip_wrappers(c.args[0], ("list", "tuple", "frozenset", "set"))) for c in astx.calls_in(f.node, "remove_cand")]
+    good = tv is not None and kw.get("elected") == f"(frozenset({tv}[0]),)" and kw.get("remaining") == astx.A(f"tuple([frozenset(s) for s in {tv}[1:]])") and rc == [f"{tv}[0]"]
     ctx.check(good, f, f.node, "DominatingSets elects exactly tier 0, keeps tiers[1:] in order, removes tier 0", str(kw), f"DominatingSets records {kw}, removes {rc}")
     f = prog.find_func("CondoBorda._run_step")
     tv = None
